@@ -95,6 +95,28 @@ def memo_cells(ctx):
     ctx.rule('EFFECT-CELL', 'per-value memo cells: values with RefCell memo fields are only built with empty cells in their constructor; each cell written in one getter')
     cell_types = [n for n, s in p.structs.items() if any('RefCell' in ty or 'Cell<' in ty for _, ty in s['fields'])]
     ctx.floor('EFFECT-CELL', 'types with RefCell memo fields', len(cell_types), 2)
+    all_cells = {}
+    for ty in cell_types:
+        for f, fty in p.structs[ty]['fields']:
+            if 'Cell' in fty:
+                all_cells[f] = ty
+    foreign = []
+    for fn in p.all_fns:
+        if fn.body is None:
+            continue
+
+        def vf(n, fn=fn):
+            if n.get('k') == 'mcall' and n['m'] in ('replace', 'set', 'borrow_mut', 'swap', 'replace_with', 'take') and n['recv'].get('k') == 'field' and n['recv']['name'] in all_cells:
+                owner = all_cells[n['recv']['name']]
+                inner = n['recv']['e']
+                direct_self = inner.get('k') == 'path' and inner['segs'] == ['self']
+                if fn.owner != owner or not direct_self:
+                    foreign.append('%s writes the memo cell %s.%s of another value (%s:%s): a later query on that value answers from a cell it did not fill itself' % (fn.qname, owner, n['recv']['name'], fn.file, n.get('ln')))
+        walk(fn.body, vf)
+    if foreign:
+        ctx.violation('EFFECT-CELL', 'EFFECT:foreign-cell-write:%s' % foreign[0].split(' ')[0], foreign[0], {'all': foreign})
+    else:
+        ctx.ok('EFFECT-CELL', len(all_cells), {'cells': sorted(all_cells)})
     for ty in cell_types:
         cells = [f for f, fty in p.structs[ty]['fields'] if 'Cell' in fty]
         bad = []
